@@ -2293,24 +2293,21 @@ impl Ord for Element {
         }
 
         // sort by item name if present
-        if let (Some(name1), Some(name2)) = (self.item_name(), other.item_name()) {
-            // both items have a name - try to decompose the name into a base and an index
-            // this allows for a more natural sorting of indexed items (e.g. "item2" < "item10")
-            if let (Some((base1, idx1)), Some((base2, idx2))) =
-                (decompose_item_name(&name1), decompose_item_name(&name2))
-            {
-                if base1 == base2 {
-                    let result = idx1.cmp(&idx2);
-                    if result != Ordering::Equal {
-                        return result;
-                    }
+        match (self.item_name(), other.item_name()) {
+            (Some(name1), Some(name2)) => {
+                // decompose each name into a base and a trailing index and compare (base, index, full name)
+                // this allows for a more natural sorting of indexed items (e.g. "item2" < "item10"),
+                // and it is a total order, which is required by sort()
+                let (base1, idx1) = decompose_item_name(&name1);
+                let (base2, idx2) = decompose_item_name(&name2);
+                let result = base1.cmp(base2).then(idx1.cmp(&idx2)).then(name1.cmp(&name2));
+                if result != Ordering::Equal {
+                    return result;
                 }
             }
-            // if the decomposition fails, then just compare the full item names
-            let result = name1.cmp(&name2);
-            if result != Ordering::Equal {
-                return result;
-            }
+            (Some(_), None) => return std::cmp::Ordering::Less,
+            (None, Some(_)) => return std::cmp::Ordering::Greater,
+            (None, None) => {}
         }
 
         // for BSW values: compare the definition references
@@ -2368,16 +2365,16 @@ impl PartialOrd for Element {
 /// The index is expected to be a decimal number at the end of the string
 ///
 /// E.g. "item123" -> ("item", 123)
-fn decompose_item_name(name: &str) -> Option<(String, u64)> {
+fn decompose_item_name(name: &str) -> (&str, Option<u64>) {
     let bytestr = name.as_bytes();
     let mut pos = bytestr.len();
     while pos > 0 && bytestr[pos - 1].is_ascii_digit() {
         pos -= 1;
     }
     if let Ok(index) = name[pos..].parse() {
-        Some((name[0..pos].to_owned(), index))
+        (&name[0..pos], Some(index))
     } else {
-        None
+        (name, None)
     }
 }
 
